@@ -133,6 +133,7 @@ class NumpyModel(object):
     def as_array(self, v, dtype=None):
         """array-like -> NDArr (np.array semantics for lists of scalars / lists of lists)"""
         I = self.I
+        v = I.force(v)
         if isinstance(v, NDArr):
             return v
         if isinstance(v, Poison):
@@ -1130,7 +1131,14 @@ class NumpyModel(object):
         raise Unsupported('ravel')
 
     def m_tolist(self, a):
-        raise Unsupported('tolist')
+        from .interp import stamp
+        if a.ndim == 1 and isinstance(a.shape[0], int):
+            f = a.fn
+            k = ZK.get(a.dtype)
+            if k is None:
+                raise Unsupported('tolist of %s array' % a.dtype)
+            return stamp(Seq('list', [self.I.mk(f(z3.IntVal(i)), k) for i in range(a.shape[0])]))
+        raise Unsupported('tolist of an array with symbolic shape')
 
     def m_sum(self, a, axis=None, **kw):
         return self.reduce('sum', a, axis)
@@ -1395,7 +1403,7 @@ class NumpyModel(object):
         def _array(I_, a, k):
             d = k.get('dtype', a[1] if len(a) > 1 else None)
             dt, bits = self.dtype_of(d)
-            v = a[0]
+            v = I.force(a[0])
             if isinstance(v, NDArr):
                 out = self.m_astype(v, d) if dt else self.copy_array(v)
                 if out.cls == 'FCSData':
